@@ -131,11 +131,13 @@ def prev_blocks_global(function: "Function", block: "BasicBlock") -> List["Basic
     """
     assert block.teal is not None
     if block == block.subroutine.entry:
-        # if the block is the entry of the subroutine, return all blocks calling the subroutine
+        # if the block is the entry of the subroutine, return all blocks calling the subroutine.
+        # The entry might also be the target of a jump from inside the subroutine (a loop whose header is
+        # the first instruction): those blocks are executed right before it as well.
         if block.subroutine != function.main:
-            return function.caller_blocks(block.subroutine)
+            return function.caller_blocks(block.subroutine) + block.prev
         # the block is the main entry block of the contract
-        return []
+        return list(block.prev)
     if block.is_sub_return_point:
         # if the block is the return point of the subroutine, return all retsub blocks of the subroutine.
         # The block might also be a jump target: the other predecessors are executed right before it as well.
